@@ -346,8 +346,15 @@ def sortOut : Nat → Env → List String → List OutRow → List OrderItem →
           let env' : Env := { env with locals := r.locals, outer := [outScope] ++ env.outer, group := r.group, wins := r.wins }
           evalExpr (cbs n) te env' e)
       pure (ks, r))
-    let sorted ← liftR (sortValuesBy keyed (orderDescs order) (orderNulls order))
-    pure (cols, sorted)
+    let sortedK ← liftR (sortKeyed keyed (orderDescs order) (orderNulls order))
+    -- ties: equal keys, different rows
+    let rec hasTie : List (List Value × OutRow) → R Bool
+      | (k1, r1) :: (k2, r2) :: rest => do
+        if (← sameGroupKey k1 k2) && !(← sameGroupKey r1.vals r2.vals) then pure true
+        else hasTie ((k2, r2) :: rest)
+      | _ => pure false
+    if ← liftR (hasTie sortedK) then modify fun s => { s with tieSensitive := true }
+    pure (cols, sortedK.map (·.2))
 
 def evalFromList : Nat → Env → List FromItem → List (List Scope) → M (List (List Scope))
   | 0, _, _, _ => throw .fuel
